@@ -168,6 +168,44 @@ func TestVerifC15(t *testing.T) {
 			p1, p2 = fromRef(A.P, lambdas(lr)), fromRef(A.P.Neg(), lambdas(lr))
 			check("add", "P+(-P)rescaled", NewSM2Point().Add(p1, p2), ref.Inf())
 		}
+		// receiver is a VALUE COPY of an operand (c := *p): a different struct that shares the operand's
+		// coordinate elements - what a point stored by value in a slice, map or struct field is. An
+		// implementation that detects overlap by comparing point addresses misses it.
+		{
+			p1, p2 = fromRef(A.P, lambdas(lr)), fromRef(B.P, lambdas(lr))
+			c := *p1
+			c.Add(p1, p2)
+			check("add", "q=copy-of-p1", &c, want)
+			p1, p2 = fromRef(A.P, lambdas(lr)), fromRef(B.P, lambdas(lr))
+			c = *p2
+			c.Add(p1, p2)
+			check("add", "q=copy-of-p2", &c, want)
+			p1, p2 = fromRef(A.P, lambdas(lr)), fromRef(B.P, lambdas(lr))
+			c2 := *p2
+			c2.Add(p1, &c2) // operand is itself the copy
+			check("add", "q=p2=copy", &c2, want)
+			p1, p2 = fromRef(A.P, lambdas(lr)), fromRef(B.P, lambdas(lr))
+			c = *p1
+			check("select", "q=copy-of-p1,cond=0", c.Select(p1, p2, 0), B.P)
+			if pr.a == pr.b {
+				p1 = fromRef(A.P, lambdas(lr))
+				c = *p1
+				c.Double(p1)
+				check("double", "q=copy-of-p", &c, A.P.Dbl())
+				p1 = fromRef(A.P, lambdas(lr))
+				arr := []SM2Point{*p1}
+				arr[0].Double(p1)
+				check("double", "q=slice-element-copy-of-p", &arr[0], A.P.Dbl())
+				p1 = fromRef(A.P, lambdas(lr))
+				c = *p1
+				c.Add(p1, p1)
+				check("add", "q=copy-of-p1=p2", &c, A.P.Dbl())
+				p1 = fromRef(A.P, lambdas(lr))
+				c = *p1
+				c.Negate(p1)
+				check("negate", "q=copy-of-p", &c, A.P.Neg())
+			}
+		}
 		// Select
 		p1, p2 = fromRef(A.P, lambdas(lr)), fromRef(B.P, lambdas(lr))
 		check("select", "cond=1", NewSM2Point().Select(p1, p2, 1), A.P)
